@@ -15,6 +15,12 @@ static int8_t g_init0, g_stack0, g_gid0; static bool g_run0;      /* the request
 #define NOTHING_MADE (G.cto == 0 && G.adds == 0 && G.add_fail == 0 && G.wpush == 0)
 #define NOTHING_STAGED(q) (NT_UNTOUCHED(q))
 
+#ifdef MC_EXCL_PENDING_ALIAS
+#define MC_ALIAS_EXCLUDED (!g_run0 || (g_init0 != thread_schedule_state_pending_do_not_schedule && g_init0 != thread_schedule_state_pending_boost))
+#else
+#define MC_ALIAS_EXCLUDED 1
+#endif
+
 static void schedule_work(struct mcq *self, thread_id_ref_type thrd, bool other_end)
 //@LIFT schedule_work_body
 
@@ -27,10 +33,8 @@ __CPROVER_requires((data == &G.victim_init || data == &G.other_init) && data->gi
 __CPROVER_requires(g_run0 ==> g_h0.owner_id_ == CFG.this_thread)
 /* the caller's duty stated by PIKA_ASSERT(id != nullptr): a thread that is not scheduled must be returned */
 __CPROVER_requires(!g_run0 || PEND0 || id != NULL)
-#ifdef MC_EXCL_PENDING_ALIAS
-/* known-finding exclusion: run_now with one of the two "not a real state" aliases of pending */
-__CPROVER_requires(!g_run0 || (g_init0 != thread_schedule_state_pending_do_not_schedule && g_init0 != thread_schedule_state_pending_boost))
-#endif
+/* (known-finding exclusion, only with -DMC_EXCL_PENDING_ALIAS: run_now with one of the two "not a real state" aliases of pending) */
+__CPROVER_requires(MC_ALIAS_EXCLUDED)
 __CPROVER_requires(G.err == 0 && vx_exc == 0 && NOTHING_MADE && NOTHING_STAGED(self) && NTRANGE(self, 8) && NTINV(self) && WI_UNTOUCHED(self) && WIRANGE(self, 8) && WIINV(self))
 __CPROVER_requires(G.v_cto == 0 && G.v_adds == 0 && G.v_wpush == 0 && G.last_pop == 0 && G.pops == 0 && VP_OK && gv_mine == (g_gid0 == 1) && (g_gid0 == 1 ==> (!gv_map && !GV_STAGED && !gv_heap && !gv_term)))
 /* (1) run_now, no error: ONE thread object made from `data` with the requested initial state by the holder, registered once in the
